@@ -295,12 +295,14 @@ pub struct Field {
 }
 
 fn durs() -> Vec<FV> {
-    vec![FV::Dur(Some((0, 0))), FV::Dur(Some((0, 1))), FV::Dur(Some((1, 0))), FV::Dur(Some((0x7ffffffe, 999_999_999))), FV::Dur(Some((-1, 0))), FV::Dur(Some((3, 0x8000_0000))), FV::Dur(None)]
+    vec![FV::Dur(Some((0, 0))), FV::Dur(Some((0, 1))), FV::Dur(Some((1, 0))), FV::Dur(Some((0x7ffffffe, 999_999_999))), FV::Dur(Some((-1, 0))), FV::Dur(Some((3, 0x8000_0000))), FV::Dur(None),
+         // the neighbourhood of the infinite sentinel (0x7fffffff, 0xffffffff): only the exact pair means infinite
+         FV::Dur(Some((0x7fffffff, 0))), FV::Dur(Some((0x7fffffff, 999_999_999))), FV::Dur(Some((0x7fffffff, 0xffff_fffe))), FV::Dur(Some((0x7ffffffe, 0xffff_ffff)))]
 }
 fn kdurs(kinds: &[u32]) -> Vec<FV> {
     let mut v = Vec::new();
     for k in kinds {
-        for d in [Some((0, 0)), Some((0, 100_000_000)), Some((10, 500)), Some((0x7ffffffe, 999_999_999)), None] {
+        for d in [Some((0, 0)), Some((0, 100_000_000)), Some((10, 500)), Some((0x7ffffffe, 999_999_999)), Some((0x7fffffff, 0)), Some((0x7fffffff, 0xffff_fffe)), None] {
             v.push(FV::KindDur(*k, d));
         }
     }
